@@ -360,6 +360,19 @@ if "resample" in req:
                     rx = XArrayBilinearResampler(src, tgt, c["radius"], **kw)
                     arr = xr.DataArray(da.from_array(stack.copy(), chunks=ch3), dims=("bands", "y", "x"))
                     r["xr"][key]["stack"] = jl(rx.resample(arr, fill_value=np.nan).values)
+                    # several lazy results of ONE resampler evaluated in ONE dask.compute (one merged graph): inputs of the same
+                    # shape carrying the same xarray name (a channel at several time slots), and unnamed inputs
+                    for nm in ("band", None):
+                        rj = XArrayBilinearResampler(src, tgt, c["radius"], **kw)
+                        rj.get_bil_info()
+                        lazy = [rj.get_sample_from_bil_info(
+                            xr.DataArray(da.from_array(fl[k].copy(), chunks=ch2), dims=("y", "x"), name=nm), fill_value=np.nan)
+                            for k in ("const", "affine", "random")]
+                        lazy.append(rj.get_sample_from_bil_info(
+                            xr.DataArray(da.from_array(stack.copy(), chunks=ch3), dims=("bands", "y", "x"), name=nm), fill_value=np.nan))
+                        got = dask.compute(*[z.data for z in lazy])
+                        for k, g in zip(("const", "affine", "random", "stack"), got):
+                            r["xr"][key]["joint[%s]:%s" % (nm, k)] = jl(g)
                     # the SAME resampler object used again, for 2-D data after 3-D data (stored coordinates, look-up tables)
                     arr = xr.DataArray(da.from_array(fl["affine"].copy(), chunks=ch2), dims=("y", "x"))
                     r["xr"][key]["reuse:affine"] = jl(rx.get_sample_from_bil_info(arr, fill_value=np.nan).values)
